@@ -6,6 +6,14 @@ props = [json.loads(l) for l in open(os.path.join(V, "properties.jsonl"))]
 NOTE = ("Trusted: Coq 8.16.1 kernel + vm_compute; no axioms (Print Assumptions: closed under the global context for every theorem in the property file); "
         "translator gstrans; the Go harness, its generators and canonicalisers; ./check. ")
 C = {
+ "C01": ("proof", "5.1", "rocq-names",
+   "PARTIAL. Kernel-checked for every name and every unicode table satisfying the stated laws (ASCII agreement, letters in L/M/N/Pc, case closure; validated on every rune the cases use): a name without combining marks / No / Nl / Pc characters is mangled by pascalize into identifier characters only (C01_pascalize_ident_chars); if it contains a letter and its first letter, when it starts with one, has an upper case, the result is an exported Go identifier, hence never a keyword (C01_pascalize_exported, C01_exported_not_keyword); variable names are never keywords (C01_var_not_keyword); generated file names never end in a suffix go build interprets (C01_file_name_built); the client's private timeout field is fresh (C01_timeout_fresh). The excluded names are refuted on the model (C01_refuted_*) and fail on the code (known findings). NOT modelled: Go typing of the emitted text (pointer/alias agreement between declaration and use, imports, template-local identifiers); it is exercised by go build of generated trees: a fixed API with 25 name slots x hostile names x flatten/expand/skip-tag-packages/strict-responders/struct-tags, servercheck's operation shapes, every tree any other check generates. Tie: hand model of swag's splitter / ToGoName / ToVarName / ToFileName, pascalize, MangleVarName, MangleFileName, renameTimeout vs the functions of the tree under test on >=1500 names per run.",
+   "proof (Coq 8.16) of name mangling + function-level correspondence + generate-and-build oracle",
+   "Modelled: go-openapi/swag name functions (dependency, hand model validated each run), generator/template_repo.go pascalize/prefixForName, language.go MangleVarName/MangleFileName, operation.go renameTimeout. Exercised only: everything the templates emit (go build is the oracle)."),
+ "C08": ("proof", "5.8", "rocq-names",
+   "Kernel-checked on the model of the generator's naming plan (gatherOperations as exported by a verif hook + the collision checks of newAppGenerator/makeCodegenApp/buildProperties): whenever the plan succeeds every operation of the spec is held under a name of its own, names and their Go forms are pairwise distinct, operations with different routes get different Go names (C08_operations); definitions get pairwise distinct Go types and (case-insensitive) source files (C08_definitions), properties distinct Go fields (C08_properties); a model file is always part of a normal build (C08_model_file_built). Tie: gatherOperations on random operation sets incl. key collisions, generation verdicts of 16 collision experiments vs plan_ops/plan_defs/plan_props. Property oracle on generated trees: handler registrations of the API builder, ClientService methods, model types of the models package as go list builds it; routing of every (method, path) to its own handler is exercised on the compiled generated server by servercheck (root path, base path variants). The unchanged code merged colliding definitions / id-less operations silently: fixed (c326970).",
+   "proof (Coq 8.16) of the naming plan + collision experiments + representation and routing oracles on generated trees",
+   "Modelled: gatherOperations, checkOperationsKept, checkDistinctModelNames, checkDistinctOperationNames, property field check. Exercised only: tag -> package grouping, router (go-openapi/runtime), file writing."),
  "C02": ("proof", "5.2", "rocq-models",
    "Kernel-checked on the fragment of Sem/Schema.v (strings, integers, booleans, arrays, maps, objects with required/optional properties at any depth; all documents with distinct keys): decoding into the generated Go type and calling Validate succeeds exactly when the reference semantics accepts the document in which optional zero-valued non-pointer scalars and optional nulls are treated as absent (C02_agrees), and that erasure removes nothing else (C02_erase_only_documented). Both sides of the theorem are tied to the code on every run: the model of the generated code against compiled generated models, the reference semantics against go-openapi/validate, on generated definitions x documents deviating from validity in one place. The harness additionally compares, outside the fragment (formats, patterns, allOf, property counts, unsigned formats), the compiled models with the reference validator directly.",
    "proof on fragment (Coq 8.16) + compiled-model differential oracle against go-openapi/validate",
@@ -70,6 +78,7 @@ ENG = {
  "rocq-order": ("/verif/coq (Tools/Order*.v, Gen/GenRangeSites.v, Gen/GenMediaTable.v) + /verif/harness/cmd/{rangesites,detcheck}", "Coq 8.16 permutation-invariance lemmas; go/types site inventory; N-run and -race harness"),
  "rocq-models": ("/verif/coq (Sem/Schema*.v) + /verif/harness/cmd/modelcheck", "Coq 8.16 semantics of the schema fragment and of generated models; compiled-model harness"),
  "rocq-server": ("/verif/coq (Tools/GenServer*.v) + /verif/harness/cmd/servercheck", "Coq 8.16 model of parameter binding, collection formats, response dispatch and the security gate; generated server+client compiled and driven in-process"),
+ "rocq-names": ("/verif/coq (Tools/Names*.v) + /verif/harness/cmd/{namecheck,servercheck}", "Coq 8.16 model of name mangling and the naming plan; name/plan correspondence; generate-and-build harness over name slots and collisions"),
  "rocq-fs": ("/verif/coq (Tools/Regen*.v) + /verif/harness/cmd/regencheck", "Coq 8.16 file-system history machine; real-history harness"),
 }
 extra = os.path.join(V, "tools", "manifest_extra.json")
@@ -96,7 +105,7 @@ for name, (path, kind) in ENG.items():
 m = {"version": 1, "setup_cmd": "./setup.sh",
      "hooks": {"guard": "verif", "enable": "go build -tags verif (the harness builds /repo packages through a replace directive)",
                "baseline_off_cmd": "cd /repo && GOFLAGS=-mod=mod GOPROXY=off GOSUMDB=off GOTOOLCHAIN=local go test -vet=off -count=1 -timeout 25m ./...",
-               "source_commits": ["8928e7a"], "add_only": True},
+               "source_commits": ["8928e7a", "8ff821a", "56364e0"], "add_only": True},
      "engines": engines, "checks": checks, "not_applicable": na,
      "notes": "exit codes of ./check: 0 held, 1 VIOLATION, 2 CHECK-ERROR (machinery fault). Known findings: KNOWN_FINDINGS.jsonl. Seeded changes used to test the checks: seeded/."}
 json.dump(m, open(os.path.join(V, "MANIFEST.json"), "w"), indent=1)
